@@ -71,3 +71,115 @@ def sig_many(a: Any, b: Any, c: Any = "c", d: Any = None) -> Any:
 
 def noargs() -> str:
     return "done"
+
+
+# ---------------------------------------------------------------------------- program interpreter
+# A program is JSON data:  ["ret", v] | ["raise", kind, [attempts]] | ["sum", base, [children]] (child.result one by one)
+#                        | ["group", base, [children]] (parallelize + results) | ["seq", [programs]] (run in order, last value)
+# Bodies are counted per (path, attempt) in RUNS (harness side, process-local).
+
+RUNS: dict[str, int] = {}
+
+
+def _this_task(name: str) -> Any:
+    from pynenc import context
+    from pynenc.identifiers.task_id import TaskId
+
+    app = context.get_current_app()
+    if app is None:
+        app = HOOKS.get("app")
+    return app.get_task(TaskId(__name__, name))
+
+
+def _raise(kind: str, msg: str) -> None:
+    from pynenc.exceptions import RetryError
+    from verif.gen import types as T
+
+    if kind == "retry":
+        raise RetryError(msg)
+    if kind == "retriable":
+        raise T.RetriableError(msg, 1)
+    if kind == "value":
+        raise ValueError(msg, 2)
+    raise T.AppError(msg)
+
+
+def prog(node: Any, path: str = "r") -> Any:
+    """Interpreter task."""
+    RUNS[path] = RUNS.get(path, 0) + 1
+    attempt = RUNS[path]
+    h = HOOKS.get("prog_body")
+    if h is not None:
+        h(path, attempt)
+    return _eval(node, path, attempt, "prog")
+
+
+def dprog(node: Any, path: str = "r") -> Any:
+    """Same interpreter registered as a direct task (children are called through the direct wrapper)."""
+    RUNS[path] = RUNS.get(path, 0) + 1
+    attempt = RUNS[path]
+    return _eval(node, path, attempt, "dprog")
+
+
+def _eval(node: Any, path: str, attempt: int, me: str) -> Any:
+    kind = node[0]
+    if kind == "ret":
+        return node[1]
+    if kind == "slow":
+        # a body that parks on a (virtual) sleep before returning
+        vs = HOOKS.get("vsleep")
+        if vs is not None:
+            vs(node[2] if len(node) > 2 else 0.05)
+        return node[1]
+    if kind == "raise":
+        if attempt in node[2] or not node[2]:
+            _raise(node[1], f"{path}#{attempt}")
+        return f"ok-after-{attempt}"
+    if kind == "sum":
+        total = node[1]
+        for i, ch in enumerate(node[2]):
+            if me == "dprog":
+                total += HOOKS["dprog_call"](ch, f"{path}.{i}")
+            else:
+                total += _this_task(me)(ch, f"{path}.{i}").result
+        return total
+    if kind == "group":
+        t = _this_task("prog")
+        grp = t.parallelize([(ch, f"{path}.{i}") for i, ch in enumerate(node[2])])
+        return node[1] + sum(grp.results)
+    raise ValueError(f"bad node {node!r}")
+
+
+# ---------------------------------------------------------------------------- trigger argument callbacks (module level: serialised by name)
+
+
+def args_from_event(ctx: Any) -> dict:
+    return {"k": ctx.payload.get("n"), "v": "event"}
+
+
+def args_from_status(ctx: Any) -> dict:
+    return {"k": ctx.arguments.kwargs.get("x"), "v": "status"}
+
+
+def args_from_result(ctx: Any) -> dict:
+    return {"k": ctx.result, "v": "result"}
+
+
+def args_from_exception(ctx: Any) -> dict:
+    return {"k": ctx.arguments.kwargs.get("x"), "v": "exception"}
+
+
+def target(k: Any = None, v: Any = None, w: Any = 0) -> Any:
+    return [k, v, w]
+
+
+def target2(k: Any = None, v: Any = None, w: Any = 0) -> Any:
+    return [k, v, w]
+
+
+def src1(x: Any = None) -> Any:
+    return x
+
+
+def src2(x: Any = None) -> Any:
+    return x
